@@ -28,6 +28,8 @@ fn parse_val(s: &str) -> Option<FactValue> {
         b'i' => s[1..].parse().ok().map(FactValue::Integer),
         b'b' => Some(FactValue::Boolean(&s[1..] == "1")),
         b's' => Some(FactValue::String(s.to_string())),
+        // h<2x>: the float x, an exact half-integer (no rounding on either side of the wire)
+        b'h' => s[1..].parse::<i64>().ok().map(|t| FactValue::Float(t as f64 / 2.0)),
         _ => None,
     }
 }
@@ -36,6 +38,7 @@ fn show_val(v: &FactValue) -> String {
         FactValue::Integer(i) => format!("i{}", i),
         FactValue::Boolean(b) => format!("b{}", if *b { 1 } else { 0 }),
         FactValue::String(s) => s.clone(),
+        FactValue::Float(f) if (f * 2.0).fract() == 0.0 && f.abs() < 1e15 => format!("h{}", (f * 2.0) as i64),
         _ => "?".into(),
     }
 }
@@ -66,6 +69,7 @@ fn parse_node(s: &str) -> Option<(ReteUlNode, &str)> {
         b'i' => p[4][1..].parse::<i64>().ok()?.to_string(),
         b'b' => (if &p[4][1..] == "1" { "true" } else { "false" }).to_string(),
         b's' => p[4].to_string(),
+        b'h' => format!("{:?}", p[4][1..].parse::<i64>().ok()? as f64 / 2.0), // "15.0", "0.5": parsed back as Float
         b'v' => { let (t, f) = p[4][1..].split_once('_')?; format!("T{}.f{}", t, f) }
         _ => return None,
     };
@@ -213,9 +217,11 @@ fn exec(case: &str) -> String {
 
 // ------------------------------------------------------------------------------------------------ generation
 fn gen_val(rng: &mut Rng) -> String {
-    match rng.below(8) {
+    match rng.below(10) {
         0 => format!("b{}", rng.below(2)),
         1 => format!("s{}", rng.below(2)),
+        // floats: the same numbers as the integers (boundary of <=, >= across representations) and halves
+        2 | 3 => format!("h{}", *rng.pick(&[0i64, 2, 4, 6, 30, 36, 50, -8, 1, 37, -7])),
         _ => format!("i{}", *rng.pick(&[0i64, 1, 2, 3, 15, 18, 25, -4])),
     }
 }
